@@ -37,24 +37,39 @@ where
     O: Clone,
     K: Hash + Eq,
 {
-    let mut seen: HashSet<K> = HashSet::new();
-    let mut frontier: Vec<(S, Value, Vec<O>)> = vec![];
+    // `seen` keeps a 128-bit digest of the full key, not the key itself (depth-5 searches hold
+    // 10^6..10^7 states per unit).  A digest collision (probability < 1e-20 per run) could only
+    // make the search skip a state, never report a false violation.
+    let mut seen: HashSet<u128> = HashSet::new();
+    let digest = |k: &K| -> u128 {
+        use std::hash::Hasher;
+        let mut a = std::collections::hash_map::DefaultHasher::new();
+        0x9E37_79B9_7F4A_7C15u64.hash(&mut a);
+        k.hash(&mut a);
+        let mut b = std::collections::hash_map::DefaultHasher::new();
+        0xC2B2_AE3D_27D4_EB4Fu64.hash(&mut b);
+        k.hash(&mut b);
+        ((a.finish() as u128) << 64) | b.finish() as u128
+    };
+    let init_descs: Vec<Value> = inits.iter().map(|(_, d)| d.clone()).collect();
+    let mut frontier: Vec<(S, usize, Vec<O>)> = vec![];
     let mut stats = BfsStats {
         states: 0,
         transitions: 0,
         leaf_transitions: 0,
         max_depth_reached: 0,
     };
-    for (s, d) in inits {
-        if seen.insert(key(&s)) {
+    for (i, (s, _)) in inits.into_iter().enumerate() {
+        if seen.insert(digest(&key(&s))) {
             stats.states += 1;
-            frontier.push((s, d, vec![]));
+            frontier.push((s, i, vec![]));
         }
     }
     for d in 1..=depth {
-        let mut next: Vec<(S, Value, Vec<O>)> = vec![];
+        let mut next: Vec<(S, usize, Vec<O>)> = vec![];
         let mut level_transitions = 0u64;
-        for (s, init_d, hist) in &frontier {
+        for (s, init_i, hist) in &frontier {
+            let init_d = &init_descs[*init_i];
             for op in ops(s) {
                 let mut succ: Option<S> = None;
                 ctx.case(
@@ -75,13 +90,13 @@ where
                 }
                 if let Some(ns) = succ {
                     if d < depth {
-                        if seen.insert(key(&ns)) {
+                        if seen.insert(digest(&key(&ns))) {
                             stats.states += 1;
                             let mut h = hist.clone();
                             h.push(op.clone());
-                            next.push((ns, init_d.clone(), h));
+                            next.push((ns, *init_i, h));
                         }
-                    } else if seen.insert(key(&ns)) {
+                    } else if seen.insert(digest(&key(&ns))) {
                         stats.states += 1;
                     }
                 }
